@@ -11,7 +11,7 @@ PROP_INVS = {
             "C03_DeliveredBeforeCovered", "C03_AtLeastOnce"],
     "C15": ["C15_NextWaits", "C15_CloseWaits", "C15_EndCauses", "C15_EndsOnCause", "C15_NoHeartbeatAfterEnd", "C15_HeartbeatInterval", "C15_LeaveOnClose",
             "C15_BackoffAfterFailedJoin"],
-    "C09": ["C09r_QuietAfterClose", "C09r_CloseReturns", "C09r_AppReturns", "C09r_ConnsClosed", "C15_LeaveOnClose"],
+    "C09": ["C09r_QuietAfterClose", "C09r_CloseReturns", "C09r_AppReturns", "C09r_ConnsClosed", "C15_LeaveOnClose", "C15_CloseWaits", "C15_NextWaits"],
 }
 MC_INVS = ["TypeOK", "Accounting", "C15_OneLive", "C15_EndCauses", "C15_NoHeartbeatAfterEnd", "C15_LeaveOnClose", "C15_BackoffAfterFailedJoin"]
 CODES = [27, 22, 25, 16, 15, -1]
@@ -148,6 +148,15 @@ def directed():
             {"op": "start", "m": 1, "fns": 2}, {"op": "sleep", "ms": 300}, {"op": "inject", "m": 1, "api": "heartbeat", "nth": 0, "code": code},
             {"op": "hold", "gate": "coord:m1/join"}, {"op": "sleep", "ms": 1800}, {"op": "stopasync", "m": 1}, {"op": "sleep", "ms": 50},
             {"op": "release", "gate": "coord:m1/join"}]))
+    # functions that are slow to return after their context ended: Next / Close still wait for them, whatever ended
+    # the generation (heartbeat failure, own exit, partition change, Close)
+    for k, cause in enumerate([[{"op": "inject", "m": 1, "api": "heartbeat", "nth": 0, "code": 27}], [{"op": "rebalance"}], [{"op": "evict", "m": 1}], []]):
+        out.append(dict(base, id="D-linger-next-%d" % k, steps=[
+            {"op": "start", "m": 1, "fns": 2, "linger": 300, "early": 0 if cause else 1, "ms": 150}, {"op": "sleep", "ms": 200}] + cause + [
+            {"op": "sleep", "ms": 900}, {"op": "stop", "m": 1}]))
+        out.append(dict(base, id="D-linger-close-%d" % k, steps=[
+            {"op": "start", "m": 1, "fns": 2, "linger": 400, "early": 0 if cause else 1, "ms": 150}, {"op": "sleep", "ms": 200}] + cause + [
+            {"op": "sleep", "ms": 60}, {"op": "stop", "m": 1}, {"op": "sleep", "ms": 500}]))
     rb = {"mode": "reader", "topics": {"t": 2}, "records": 6, "startOffset": -2, "commitIntervalMs": 0, "heartbeatMs": 20, "backoffMs": 60,
           "watch": False, "drain": True}
     # two members, rebalance in the middle of consumption, sync commits
